@@ -1,10 +1,24 @@
 """C03 rollout gating: theorems in props/C03.v; real (Cluster)ObjectSet controller on generated worlds."""
+import json
 import setcheck
 
 
 def check(run, tier, seed, replay=None):
+    if replay and "sliced" in json.load(open(replay))["replay"]["scenario"]:
+        import vlib, C14
+        vlib.std_proof_stage(run, "C03")
+        vlib.build_harness()
+        C14.sliced_extra(run, tier, seed, "missing", ID_SLICE, replay)
+        return
     setcheck.set_check(run, "C03", tier, seed, replay, 1200, 20000, "judge03",
                        "C03 object of a later phase written although an earlier phase is incomplete, or wrong phase named as failing",
                        "seeded random worlds: ObjectSets with 1-4 phases x 0-3 objects (ConfigMaps and probed Widgets), members in "
                        "all ownership / status states (ready, failing, stale observedGeneration, absent, uncached), active/paused/new/"
                        "deleting/archived lifecycle, previous revisions present/absent, through the real controller's Reconcile")
+    # additive: phases whose objects live in ObjectSlices (machinery and theorems of C14, props/C14.v C14_missing_slice_no_rollout)
+    import C14
+    C14.sliced_extra(run, tier, seed, "missing", ID_SLICE)
+
+
+ID_SLICE = ("C03 a phase is rolled out (or availability reported) although the slice holding an earlier phase's objects "
+            "could not be loaded")
